@@ -204,9 +204,9 @@ def run(ck, ctx):
                         ok_sel = False
                         continue
                     kind, l, rr_ = pr.atoms[ats[0]]
-                    ent = [y for y in (l, rr_) if y.op == "Subscript" and y.args[0] is key_tab and y.args[1].op == "Const"
-                           and y.args[1].attr == j]
-                    oth = [y for y in (l, rr_) if not (y.op == "Subscript" and y.args[0] is key_tab)]
+                    ent = [y for y in (l, rr_) if y is not None and y.op == "Subscript" and y.args[0] is key_tab and
+                           y.args[1].op == "Const" and y.args[1].attr == j]
+                    oth = [y for y in (l, rr_) if y is not None and not (y.op == "Subscript" and y.args[0] is key_tab)]
                     if len(ent) != 1 or len(oth) != 1:
                         ok_sel = False
                         continue
